@@ -40,13 +40,22 @@ def enc(v):
     if v is None or isinstance(v, (bool, int, float, str)):
         return v
     if isinstance(v, type):
-        return {"$type": INV_TYPE_NAMES[v]}
+        if v in INV_TYPE_NAMES:
+            return {"$type": INV_TYPE_NAMES[v]}
+        return {"$class": f"{v.__module__}:{v.__qualname__}"}
+    import types as _types
+    if isinstance(v, (_types.FunctionType, _types.BuiltinFunctionType)):
+        return {"$func": f"{v.__module__}:{v.__qualname__}"}
+    if getattr(type(v), "__module__", "").startswith("valida") and hasattr(v, "__dict__"):
+        return {"$obj": f"{type(v).__module__}:{type(v).__qualname__}", "attrs": {k: enc(x) for k, x in v.__dict__.items()}}
     if isinstance(v, tuple):
         return {"$tuple": [enc(i) for i in v]}
+    if isinstance(v, range):
+        return {"$range": [v.start, v.stop]}
     if isinstance(v, list):
         return [enc(i) for i in v]
     if isinstance(v, dict):
-        if any(k in v for k in ("$type", "$tuple", "$dict", "$path")):
+        if any(k in v for k in ("$type", "$tuple", "$dict", "$path", "$obj", "$func", "$class", "$range")):
             return v                                       # already a term
         if all(isinstance(k, str) and not k.startswith("$") for k in v):
             return {k: enc(x) for k, x in v.items()}
@@ -63,10 +72,28 @@ def dec(t, V=None):
             return TYPE_NAMES[t["$type"]]
         if "$tuple" in t:
             return tuple(dec(i, V) for i in t["$tuple"])
+        if "$range" in t:
+            return range(*t["$range"])
         if "$dict" in t:
             return {dec(k, V): dec(x, V) for k, x in t["$dict"]}
         if "$path" in t:
             return build_path(t["$path"], V)
+        if "$func" in t or "$class" in t:
+            import importlib
+            mod, qn = (t.get("$func") or t.get("$class")).split(":")
+            o = importlib.import_module(mod)
+            for part in qn.split("."):
+                o = getattr(o, part)
+            return o
+        if "$obj" in t:
+            import importlib
+            mod, qn = t["$obj"].split(":")
+            c = importlib.import_module(mod)
+            for part in qn.split("."):
+                c = getattr(c, part)
+            o = object.__new__(c)
+            o.__dict__.update({k: dec(x, V) for k, x in t["attrs"].items()})
+            return o
         return {k: dec(x, V) for k, x in t.items()}
     return t
 
